@@ -64,8 +64,8 @@ def ob_m_multisec(ob):
     if bad:
         return result('error', notes=[f'translator validation {bad[:2]}'], validated=tot)
     T = Text(N)
-    block2 = Fill('block', BLOCK_CH + ('0123456789.' if digit_block else ''), 1 if digit_block else 0, ob.params.get('blen', 6),
-                  first_not=(' ' if digit_block else ' ,/'))
+    block2 = Fill('block', BLOCK_CH + ('0123456789.' if digit_block else '0123456789'), 1 if digit_block else 0, ob.params.get('blen', 6),
+                  first_not=(' ' if digit_block else ' ,/0123456789'))
     tpl = Template([Fill('pre', BLOCK_CH, 0, ob.params.get('blen', 6), last_not=list('abdfghijklmnopqrtuvwxyzNEW')),
                     Alt('word', ['Sec ', 'Section ', 'Secs ', 'Sections ', 'Sec. ', '§ ']), Digits('n0', 1, 2),
                     Opt('more', [Alt('sep', [' - ', ', ', ' and ', '-', ' through ', ' & ']), Digits('n1', 1, 2)]),
@@ -76,6 +76,11 @@ def ob_m_multisec(ob):
     if digit_block:
         base.append(z3.Or(*[T.at(tpl.lo('block')) == ord(d) for d in '0123456789']))
         base.append(tpl.hi('colon') > tpl.lo('colon'))
+    else:
+        # a block does not begin with a list connective (to / thru / through / and): that would continue the section list
+        b0, b1 = T.at(tpl.lo('block')), T.at(tpl.lo('block') + 1)
+        for w in ('to', 'th', 'an'):
+            base.append(z3.Not(z3.And(z3.Or(b0 == ord(w[0]), b0 == ord(w[0].upper())), z3.Or(b1 == ord(w[1]), b1 == ord(w[1].upper())))))
     sol = z3.Solver()
     sol.set('timeout', ob.params.get('cap', 900) * 1000)
     sol.add(*base)
@@ -152,7 +157,7 @@ def ob_m_nonum(ob):
 
 # ------------------------------------------------------------------ rendered descriptions through the real PLSSDesc
 TR_SP = ('T{n}N-R{m}W', 'Township {n} North, Range {m} West', 'T{n}S R{m}E', 'Twp. {n} N., Rge. {m} W.', '{n}n-{m}w')
-SEC_W = ('Sec ', 'Section ', 'Sec. ', '§ ')
+SEC_W = ('Sec ', 'Section ', 'Sec. ', '§')
 BLOCKS = ('NE/4', 'Lots 1 - 2, S/2NW/4', 'W/2, less and except the wellbore', 'That part of the North Half lying north of the river', 'ALL')
 
 
@@ -172,7 +177,7 @@ def render(layout, n_tr, n_sec, tr_ix, sw_ix, b_ix, multi, sep_ix):
         for k in range(n_sec):
             a = 10 * (g + 1) + k
             if multi and k == 0:
-                word = {'Sec ': 'Secs ', 'Section ': 'Sections ', 'Sec. ': 'Secs. ', '§ ': '§§ '}[SEC_W[sw_ix]]
+                word = {'Sec ': 'Secs ', 'Section ': 'Sections ', 'Sec. ': 'Secs. ', '§': '§'}[SEC_W[sw_ix]]
                 secs.append((word + f'{a} - {a + 2}', [a, a + 1, a + 2], BLOCKS[(b_ix + k) % len(BLOCKS)]))
             else:
                 secs.append((SEC_W[sw_ix] + str(a), [a], BLOCKS[(b_ix + k) % len(BLOCKS)]))
@@ -211,9 +216,10 @@ def ob_api(ob):
     from engine.xh import explore, choose
     layout = ob.params['layout']
     tr_set = ob.params.get('tr_set', range(len(TR_SP)))
+    b_set = ob.params.get('b_set', tuple(range(len(BLOCKS))))
 
     def target(ntr: bool, nsec: bool, tr: int, sw: int, b: int, multi: bool, sep: int):
-        args = (2 if ntr else 1, 2 if nsec else 1, choose(tr, tr_set), choose(sw, range(len(SEC_W))), choose(b, range(len(BLOCKS))), bool(multi), choose(sep, range(3)))
+        args = (2 if ntr else 1, 2 if nsec else 1, choose(tr, tr_set), choose(sw, range(len(SEC_W))), choose(b, b_set), bool(multi), choose(sep, range(3)))
         text, exp = render(layout, *args)
         return render_verdict(text, exp, layout) is None
 
@@ -227,7 +233,7 @@ def ob_api(ob):
         out = []
         for v in vs[:3]:
             a = v['args']
-            text, exp = render(layout, 2 if a['ntr'] else 1, 2 if a['nsec'] else 1, trs[cl(a['tr'], len(trs))], cl(a['sw'], len(SEC_W)), cl(a['b'], len(BLOCKS)), bool(a['multi']), cl(a['sep'], 3))
+            text, exp = render(layout, 2 if a['ntr'] else 1, 2 if a['nsec'] else 1, trs[cl(a['tr'], len(trs))], cl(a['sw'], len(SEC_W)), b_set[cl(a['b'], len(b_set))], bool(a['multi']), cl(a['sep'], 3))
             out.append(violation(f'layout-api:{layout}', f'{text!r}: {render_verdict(text, exp, layout)}; {v["exc"]}', 'c01_text', {'text': text, 'expected': exp, 'layout': layout}))
         return out
     return from_explore(st, info, mk)
@@ -248,5 +254,5 @@ def obligations(tier):
     for lay in LAYOUTS:
         obs.append(Ob(f'api_{lay}', 'S', ob_api, f'rendered {lay} descriptions through PLSSDesc incl. pretty_desc round trip',
                       functions=['PLSSDesc', 'plss_preprocess', 'PLSSParser', 'TractList.pretty_desc', 'TRS.pretty_twprge'], weight=8, timeout=7000,
-                      params={'layout': lay, 'cap': 6500, 'tr_set': (0, 1, 3) if q else tuple(range(len(TR_SP)))}))
+                      params={'layout': lay, 'cap': 6500, 'tr_set': (0, 1, 3) if q else tuple(range(len(TR_SP))), 'b_set': (0, 1, 3) if q else tuple(range(len(BLOCKS)))}))
     return obs
